@@ -1,9 +1,14 @@
 #!/usr/bin/env python3
 """tools/seedsave.py Cxx mK [preview-line] — copy a seeded change from /tmp/seed_Cxx_out/mK into /verif/seeded/Cxx_mK/ and start its meta.json."""
 import sys, os, shutil, json, glob
+# usage: seedsave.py Cxx mK            (wave 1: /tmp/seed_Cxx_out/mK -> seeded/Cxx_mK)
+#        seedsave.py Cxx mK mJ 2       (wave 2: /tmp/seed2_Cxx_out/mK -> seeded/Cxx_mJ)
 pid, m = sys.argv[1], sys.argv[2]
-src = "/tmp/seed_%s_out/%s" % (pid, m)
-dst = "/verif/seeded/%s_%s" % (pid, m)
+mdst = sys.argv[3] if len(sys.argv) > 3 else m
+wave = sys.argv[4] if len(sys.argv) > 4 else ""
+src = "/tmp/seed%s_%s_out/%s" % (wave, pid, m)
+dst = "/verif/seeded/%s_%s" % (pid, mdst)
+m = mdst
 os.makedirs(dst, exist_ok=True)
 for f in glob.glob(src + "/*"):
     if os.path.isdir(f):
